@@ -299,7 +299,8 @@ def r2(repo, res):
     res.analysed(g)
     Mut = collections.namedtuple("Mutation", ["pos", "op"])
     a, b, c_, d = (60, 40), (60, 5), (5, 40), (30, 30)
-    table = {10: {"_": [a, b], "A>G": [c_]}, 11: {"_": [d]}}
+    table = {10: {"_": [a, b], "A>G": [c_]}, 11: {"_": [d]}, 12: {"_": [b, c_]}}   # 12: a reference-only site whose reads all fail a threshold
+    nonempty = lambda t: {p_: x_ for p_, x_ in t.items() if x_}  # noqa: E731  (a site that lost everything may stay as an empty entry)
 
     def run_filtered(fn, indels=None):
         me = Obj(_coverage={p: {o: list(v) for o, v in x.items()} for p, x in table.items()}, _indels=indels)
@@ -310,9 +311,11 @@ def r2(repo, res):
 
     try:
         k, v, me = run_filtered(lambda s, m: [x for x in s._coverage[m.pos][m.op] if x[1] >= 10 and x[0] >= 10])
-        ok1 = k == "return" and v._coverage == {10: {"_": [a]}, 11: {"_": [d]}} and me._coverage == table and v is not me
+        ok1 = k == "return" and nonempty(v._coverage) == {10: {"_": [a]}, 11: {"_": [d]}} and me._coverage == table and v is not me
         k, v, me = run_filtered(lambda s, m: m.op == "_")
-        ok2 = k == "return" and v._coverage == {10: {"_": [a, b]}, 11: {"_": [d]}} and me._coverage == table
+        ok2 = k == "return" and nonempty(v._coverage) == {10: {"_": [a, b]}, 11: {"_": [d]}, 12: {"_": [b, c_]}} and me._coverage == table
+        k, v, me = run_filtered(lambda s, m: False)
+        ok2 = ok2 and k == "return" and nonempty(v._coverage) == {}
         k, v, me = run_filtered(lambda s, m: m.op != "insT", indels={(10, "insT"): (3, 4), (12, "delA"): (1, 2)})
         ok3 = k == "return" and v._indels == {(12, "delA"): (1, 2)} and me._indels == {(10, "insT"): (3, 4), (12, "delA"): (1, 2)}
     except (Unfoldable, Raised) as e:
